@@ -1,6 +1,7 @@
 module github.com/fullstorydev/emulators/storage
 
-go 1.22
+go 1.23.0
+
 toolchain go1.24.1
 
 require (
